@@ -306,6 +306,71 @@ func coqRexp(r *rexp) string {
 	return "ROther"
 }
 
+// ddlKinds extracts the case list of `func IsDDLNode(node sql.Node) bool { switch node.(type) { case ...: return true; default: return false } }`.
+func ddlKinds(funcs []*ast.FuncDecl, funcFile map[*ast.FuncDecl]string) ([]string, string, bool) {
+	for _, fd := range funcs {
+		if fd.Recv != nil || fd.Name.Name != "IsDDLNode" || fd.Body == nil || len(fd.Body.List) != 1 {
+			continue
+		}
+		ts, ok := fd.Body.List[0].(*ast.TypeSwitchStmt)
+		if !ok {
+			return nil, "", false
+		}
+		returns := func(body []ast.Stmt) (bool, bool) {
+			if len(body) != 1 {
+				return false, false
+			}
+			r, ok := body[0].(*ast.ReturnStmt)
+			if !ok || len(r.Results) != 1 {
+				return false, false
+			}
+			id, ok := r.Results[0].(*ast.Ident)
+			if !ok || (id.Name != "true" && id.Name != "false") {
+				return false, false
+			}
+			return id.Name == "true", true
+		}
+		var out []string
+		sawDefault := false
+		for _, st := range ts.Body.List {
+			cc := st.(*ast.CaseClause)
+			v, ok := returns(cc.Body)
+			if !ok {
+				return nil, "", false
+			}
+			if cc.List == nil {
+				if v {
+					return nil, "", false // default: return true is not a membership list
+				}
+				sawDefault = true
+				continue
+			}
+			if !v {
+				continue
+			}
+			for _, e := range cc.List {
+				switch x := e.(type) {
+				case *ast.StarExpr:
+					id, ok := x.X.(*ast.Ident)
+					if !ok {
+						return nil, "", false
+					}
+					out = append(out, id.Name)
+				case *ast.Ident:
+					out = append(out, "val:"+x.Name)
+				default:
+					return nil, "", false
+				}
+			}
+		}
+		if !sawDefault {
+			return nil, "", false
+		}
+		return out, funcFile[fd], true
+	}
+	return nil, "", false
+}
+
 func writeIfChanged(p string, content []byte) {
 	old, err := os.ReadFile(p)
 	if err == nil && string(old) == string(content) {
@@ -468,6 +533,14 @@ func main() {
 			strings.Join(fs, "; "), coqPath(e.Children))
 	}
 	sb.WriteString("\nDefinition entries : list entry := [\n  " + strings.Join(ids, "; ") + "].\n")
+	// the node types accepted by plan.IsDDLNode (a type switch whose listed cases return true)
+	ddl, ddlFile, ok := ddlKinds(funcs, funcFile)
+	if !ok {
+		fmt.Fprintln(os.Stderr, "plan.IsDDLNode not found or not of the expected shape (type switch, cases returning true/false)")
+		os.Exit(1)
+	}
+	sb.WriteString("\n(* node types for which plan.IsDDLNode (" + ddlFile + ") answers true; a non-pointer case would be spelled \"val:T\" *)\n")
+	sb.WriteString("Definition ddl_kinds : list string := " + coqPath(ddl) + ".\n")
 	writeIfChanged(filepath.Join(*out, "C42Flags.v"), []byte(sb.String()))
 	jb, _ := json.MarshalIndent(entries, "", " ")
 	writeIfChanged(filepath.Join(*out, "C42Flags.json"), append(jb, '\n'))
